@@ -20,10 +20,15 @@
         Rank64(e) - Rank64(i)] with the index of IndexRank64(bm, tr) ([WalkCount]); spec = three times the
         number of 1-bits of the range.
     [bitmap.Of/walk] [ps; opt] (ps strictly ascending, non-negative; opt = [] or [n]): build with
-        Of(ps, n), walk the whole result with NextOne and with PrevOne; spec = [ps; rev ps]. *)
+        Of(ps, n), walk the whole result with NextOne and with PrevOne; spec = [ps; rev ps].
+    [bitmap.NextOne/any] [bitmap.PrevOne/any] [segs; i; e]: ANY int32 [i], [e] (outside the property's domain
+        too); model = int32 model, spec = Spec/NextTotalSpec.v (exact panic sets).  DIAGNOSTIC ONLY: no
+        generator of ./check C13 emits these (behaviour outside the stated domain is not compared by the
+        check); the harness generator "C13x" does, for a one-off validation of the model theorems
+        C13_NextOne_any / C13_PrevOne_any / C13_int32_agree against the real code (docs/selftest-C13.md). *)
 From Coq Require Import ZArith List Bool String.
 From Low Require Import Lib.Bits Lib.BitSeq Lib.Val Model.BitmapNext Model.BitmapNext32 Model.BitmapNextIter
-  Model.BitmapOf Model.BitmapNextReaders Spec.NextSpec.
+  Model.BitmapOf Model.BitmapNextReaders Spec.NextSpec Spec.NextTotalSpec.
 Import ListNotations.
 Open Scope string_scope.
 Open Scope Z_scope.
@@ -100,6 +105,8 @@ Fixpoint ascendingb (prev : Z) (l : list Z) : bool :=
 Definition ofwalk_dom (ps : list Z) (opt : option Z) : bool :=
   ascendingb (-1) ps && (last ps 0 <? 2^30) && match opt with Some n => n <? 2^30 | None => true end.
 
+Definition i32_okb (x : Z) : bool := (- 2^31 <=? x) && (x <? 2^31).
+
 Definition ops_C13_wide : list opdef := [
   {| op_name := "bitmap.NextOne/sparse";
      op_run := fun a => with_bm_i_e a next_dom (fun bm i e => voz (NextOne32 bm i e));
@@ -169,6 +176,14 @@ Definition ops_C13_wide : list opdef := [
            | Some bm, Some i, Some e => let c := zlen (ones_in bm i e) in vzs [c; c; c]
            | _, _, _ => VBad end
        | _ => VBad end) |};
+  {| op_name := "bitmap.NextOne/any";
+     op_run := fun a => with_bm_i_e a (fun _ i e => i32_okb i && i32_okb e) (fun bm i e => voz (NextOne32 bm i e));
+     op_spec := fun_spec (fun a => with_bm_i_e a (fun _ i e => i32_okb i && i32_okb e)
+                                     (fun bm i e => voz (spec_NextOne_any bm i e))) |};
+  {| op_name := "bitmap.PrevOne/any";
+     op_run := fun a => with_bm_i_e a (fun _ i e => i32_okb i && i32_okb e) (fun bm i e => voz (PrevOne32 bm i e));
+     op_spec := fun_spec (fun a => with_bm_i_e a (fun _ i e => i32_okb i && i32_okb e)
+                                     (fun bm i e => voz (spec_PrevOne_any bm i e))) |};
   {| op_name := "bitmap.Of/walk";
      op_run := fun a => match a with
        | [ps; opt] => match as_zs ps, as_optz opt with
